@@ -1,5 +1,6 @@
 import ErrModel.Props.C06
 import ErrModel.Accessors
+import ErrModel.Proofs.Outside
 /-
   C03 — Unsafe strings never reach PII-free outputs.
 
@@ -9,10 +10,17 @@ import ErrModel.Accessors
   non-library error, a path, a Mark reference's message, the message of an opaque leaf);
   (2) the reportable payload on the wire *is* the layer's safe details; (3) in a redactable
   rendering an entry that did not come from a SafeFormatError method is always passed
-  through `redact.EscapeBytes`.  For the fields that mix safe and unsafe parts (a message
-  built by `redact.Sprintf`, a context tag) the safe details are `Redact()` of the
-  redactable string: that `Redact()` removes exactly what was an unsafe argument is the
-  contract of the redact package (trusted base), tied by the RC stream and the token oracle.
+  through `redact.EscapeBytes`.
+  (4) For everything that mixes safe and unsafe parts (a message built by `redact.Sprintf`, a
+  context tag, an escaped foreign message) the PII-free form is `Redact()` of a redactable
+  string.  `C03_redact_*`: Redact keeps the OUTSIDE view (the bytes not between markers) and
+  turns every enclosure into `×`.  `C03_sprintf_outside` / `C03_sprintf_noninterference`:
+  in the redact buffer model the outside view of `Sprintf` consists of the safe pieces, the
+  outside views of the redactable pieces, the NEWLINES of the unsafe pieces and `?` marks —
+  of nothing else an unsafe piece contains, for all byte contents; `C03_escapeBytes_outside`:
+  the outside view of `EscapeBytes(s)` is the newlines of `s`.
+  What remains tied but not proved: that the write machine and the layouts move these
+  strings around without looking inside them (they only test bytes for newline-ness).
 -/
 namespace ErrModel
 
@@ -116,5 +124,51 @@ theorem C03_foreign_leaf_entry (red detail : Bool) (id : Ident) (m : Str) (o wd 
   simp only [Bool.false_eq_true, if_false, List.mem_singleton] at hen
   subst hen
   rw [C06_redactable_flag]; rfl
+
+/-! ### Redact() and the outside view -/
+
+/-- Redact keeps exactly the bytes that are outside the markers -/
+theorem C03_redact_keeps_outside (t : Toks) (h : LW t) : outs false (redactT t) = outs false t :=
+  outs_redactT t h
+
+/-- and every enclosure of the redacted string is `×`: nothing of what was enclosed remains -/
+theorem C03_redact_erases_inside (t : Toks) (h : LW t) :
+    ∃ n, ins false (redactT t) = (List.replicate n timesB).flatten :=
+  ins_redactT t h
+
+/-- the outside view of what `redact.Sprintf` returns: safe pieces (marker runes escaped), outside
+    views of redactable pieces, newlines of unsafe pieces, `?` marks -/
+theorem C03_sprintf_outside (segs : List SegT) (hs : ∀ g ∈ segs, g.ok) :
+    OutSet segs (outs false (assembleT segs)) :=
+  outs_assembleT segs hs
+
+/-- non-interference: two Sprintf calls that differ only in their unsafe arguments (with the same
+    newlines) have their outside views in the same set -/
+theorem C03_sprintf_noninterference (a b : List SegT) (ha : ∀ g ∈ a, g.ok) (hb : ∀ g ∈ b, g.ok)
+    (hs : SameSafe a b) :
+    OutSet b (outs false (assembleT a)) ∧ OutSet b (outs false (assembleT b)) :=
+  outs_assembleT_noninterference a b ha hb hs
+
+theorem SameSafe_refl : (l : List SegT) → SameSafe l l
+  | [] => .nil
+  | g :: r => .same g r r (SameSafe_refl r)
+
+theorem SameSafe_at (pre post : List SegT) (s s' : Str) (h : nlsOf s = nlsOf s') :
+    SameSafe (pre ++ .arg s :: post) (pre ++ .arg s' :: post) := by
+  induction pre with
+  | nil => exact .arg s s' post post h (SameSafe_refl post)
+  | cons g r ih => exact .same g _ _ ih
+
+/-- an unsafe argument can be replaced by any other with the same newlines without changing
+    the set of possible outside views; in particular an argument without newlines contributes
+    nothing at all -/
+theorem C03_arg_invisible (pre post : List SegT) (s s' : Str) (h : nlsOf s = nlsOf s')
+    (v : Str) (hv : OutSet (pre ++ .arg s :: post) v) : OutSet (pre ++ .arg s' :: post) v :=
+  OutSet_sameSafe (SameSafe_at pre post s s' h) v hv
+
+/-- the outside view of `redact.EscapeBytes(s)` is the newlines of `s`: a non-redactable entry
+    contributes only line breaks to a redactable rendering -/
+theorem C03_escapeBytes_outside (s : Str) : outs false (escapeBytesT s) = nlsOf s :=
+  outs_escapeBytesT s
 
 end ErrModel
